@@ -198,6 +198,7 @@ class Engine:
         self.unique_impls = unique_impls
         self.havoc_mut_args = havoc_mut_args
         self.assume_asserts = assume_asserts
+        self.cut_cond = None            # callable(state, term, op, val) -> True to end the path here with kind 'cut'
         self.fork_index = 8             # largest constant table whose lookup by an undetermined index forks the state
         self.inlined = set()
         self.opaque = set()
@@ -855,6 +856,11 @@ class Engine:
                 for (op, val), b in branches:
                     s2 = st.copy()
                     if self.add_cond(s2, v, op, val, site):
+                        # a model may end a path at the moment it learns something (a second message was received: what
+                        # follows belongs to the next outcome and is explored from there)
+                        if self.cut_cond is not None and self.cut_cond(s2, v, op, val):
+                            results.append(PathResult('cut', s2, None, site))
+                            continue
                         live.append((s2, b))
                 # bool / two-valued discriminants: otherwise after excluding all => dead already handled
                 first = True
